@@ -4,6 +4,7 @@ import QipVerif.Lemmas.EmbedAlg
 import QipVerif.Lemmas.EmbedFlatTop
 import QipVerif.Lemmas.EmbedArgs
 import QipVerif.Lemmas.EmbedObj
+import QipVerif.Lemmas.EmbedNum
 /-!
 # C08 — operator embedding places an operator on exactly the requested subsystems
 
@@ -414,6 +415,48 @@ example : expandArgs ⟨none, some [2, 2, 2], .list [-1], [2], [2], true⟩
     ∧ expandArgs ⟨none, some [2, 3, 2], .list [0], [2], [2], true⟩ = .error (.val .dims)
     ∧ expandArgs ⟨none, some [2, 2, 2], .list [-1], [2], [2], false⟩ = .error (.val .index) := by decide
 
+
+
+/-! ### Numeric types of the integer-valued arguments (`Model/EmbedNum.lean`)
+
+`N` / `num_qubits`, entries of `targets` and `dims`, integer `dims` of a pulse — as Python `int`, `bool`, numpy
+integer, numpy 0-d array, float with integral value. -/
+
+open QipVerif.EmbedArgs QipVerif.EmbedNum in
+/-- **No type changes a value**: at every argument position a number is used with its own integral value or
+the call raises (nothing is truncated, ignored or replaced by a default). -/
+theorem num_coerce_value (p : Pos) (x : Num) (v : Int) (h : coerce p x = some v) : v = x.v :=
+  coerce_eq p x v h
+
+open QipVerif.EmbedArgs QipVerif.EmbedNum in
+/-- a call with typed numbers that returns a value is the call on the integers themselves, so every `args_*`
+theorem (hence `flat_eq_spec`) applies to it: the operator is embedded on the REQUESTED register. -/
+theorem args_typed_sound (a : ArgsT) (rs : List (List Nat × List Nat)) (h : expandArgsT a = .ok rs) :
+    ∃ a', lower a = some a' ∧ expandArgs a' = .ok rs := by
+  unfold expandArgsT at h
+  cases hl : lower a with
+  | none => simp [hl] at h
+  | some a' =>
+    cases he : expandArgs a' with
+    | error e => simp [hl, he] at h
+    | ok rs' =>
+      simp only [hl, he, Except.ok.injEq] at h
+      exact ⟨a', rfl, by rw [← h]; exact he⟩
+
+open QipVerif.EmbedArgs QipVerif.EmbedNum in
+/-- with Python ints everywhere the typed call is the plain call -/
+theorem args_typed_int (a : Args) :
+    expandArgsT (ofArgs a) = match expandArgs a with | .ok rs => .ok rs | .error e => .error (.args e) := by
+  unfold expandArgsT; rw [lower_ofArgs]; rfl
+
+open QipVerif.EmbedArgs QipVerif.EmbedNum in
+-- `Gate.get_qobj(num_qubits=np.int64(4))` of a one-qubit gate on qubit 0; a float size; a bool entry of targets
+example : expandArgsT ⟨none, .qubits ⟨.npint, 4⟩, .list [⟨.int, 0⟩], [2], [2], false⟩ = .ok [([2, 2, 2, 2], [0])]
+    ∧ expandArgsT ⟨none, .qubits ⟨.float, 4⟩, .list [⟨.int, 0⟩], [2], [2], false⟩ = .error .numtype
+    ∧ expandArgsT ⟨none, .list [⟨.int, 2⟩, ⟨.float, 3⟩, ⟨.arr0, 2⟩], .list [⟨.bool, 1⟩], [3], [3], false⟩
+        = .error .numtype
+    ∧ expandArgsT ⟨none, .list [⟨.int, 2⟩, ⟨.float, 3⟩, ⟨.npint, 2⟩], .list [⟨.bool, 1⟩], [3], [3], false⟩
+        = .ok [([2, 3, 2], [1])] := by decide
 
 /-! ### Objects that embed on demand (`Model/EmbedObj.lean`): `_EvoElement` behind `Pulse` / `Drift`
 
